@@ -20,6 +20,7 @@ func checkC12(c *Ctx) {
 	r.Rule("R12.6", "no bypass: from every native entry point (every exported function or method of the package that reaches the record printer, except the raw record entry points of the log/slog and std-log bridges) every static route to the printer passes the function that holds the termination step")
 	r.Rule("R12.7", "the testing-mode atom of R12.1 is what the property means by it: the package variable inTesting is initialised by is.InTesting() itself and never reassigned")
 	r.Rule("R12.5", "no foreign level becomes terminating: in every function mapping a log/slog level to a Level, Panic/Fatal are returned only under equality with the explicit LevelPanic/LevelFatal constants, and the lookup table has no terminating value")
+	r.Rule("R02.9", "(shared with C02) a nil context never has a method called on it: for every method call on a context.Context value on the print path, every origin of the receiver (through parameters over all static call sites, and joins) is a value made by package context or the raw parameter on the not-nil side of a test of that parameter")
 	r.Assume("inTesting (is.InTesting()) identifies a go test binary; the flags word is read at the time of the call")
 	for _, tags := range c.Configs([]string{""}, []string{"", "verbose", "hint", "verbose,hint"}) {
 		p := c.Prog(tags)
@@ -36,10 +37,12 @@ func checkC12(c *Ctx) {
 		wrapperForwarding(c, p, "R12.2")
 		c12Mapping(c, p, m)
 		noTerminationBypass(c, p, m)
+		nilContextSafe(c, p, m, "R02.9")
 		testingPredicate(c, p)
 	}
 	c.Floor["R12.1"] = 16
 	c.Floor["R12.5"] = 3
+	c.Floor["R02.9"] = 1
 }
 
 // terminators: functions in the package that contain os.Exit or a panic of a parameter.
@@ -488,7 +491,7 @@ func c12Mapping(c *Ctx, p *Prog, m *Model) {
 	// no run-time store into that table
 	for _, fn := range p.RepoFuncs() {
 		for _, gs := range globalStores(fn) {
-			if nm(gs.G) == "mLogSlogLevelToLevel" && nm(fn) != "init" {
+			if nm(gs.G) == "mLogSlogLevelToLevel" && !p.startupOnly(fn) {
 				r.Bad("R12.5", "table-store:"+shortName(fn), p.Pos(instrPos(gs.Instr)), "the log/slog level table is modified at run time")
 			}
 		}
